@@ -3,7 +3,7 @@ import os
 
 import mcd
 import mcdgen
-from mcdcheck import EngineDCheck, abort_class, hash_of, loop_msg
+from mcdcheck import EngineDCheck, abort_class, abort_msg, hash_of, loop_msg
 from rng import Rng
 
 
@@ -103,7 +103,7 @@ class C41(EngineDCheck):
             if not r['finished']:
                 if not r['timed_out'] and not r['stalled'] and not r['looping'] and not r['unsupported'] and not r['reports']:
                     viol.append((abort_class(r), 'simgrid-mc %s ended with status %s: %s' %
-                                 (r['config'], r['rc'], ' | '.join(r['criticals'][:2]) or r['stderr_tail'][-300:])))
+                                 (r['config'], r['rc'], abort_msg(r) if r['criticals'] else r['stderr_tail'][-300:])))
                 elif r['stalled']:
                     viol.append(('stall_' + red, 'simgrid-mc %s: checker and application wait for each other' % r['config']))
                 elif r['looping']:
